@@ -462,9 +462,10 @@ class AutoQKHyperModel(HyperModel):
           layer_d['pointwise_quantizer'] = pointwise_quantizer
 
         if layer.__class__.__name__ in ["LSTM", "GRU", "Bidirectional"]:
-          layer_d['recurrent_activation'], _  = self._get_quantizer(
+          recurrent_activation, _ = self._get_quantizer(
               hp, layer.name + "_recurrent_activation", layer.name,
               layer.__class__.__name__, is_kernel=False)
+          layer_d['recurrent_activation_quantizer'] = recurrent_activation
 
         # if we use bias, sample quantizer.
         if layer.__class__.__name__ == "Bidirectional":
